@@ -828,6 +828,16 @@ func (c *candidates) resolve(x *Explorer, rep *Report, sc *Scenario) {
 		}
 		conf := x.ConfirmExact(p.s, ConfirmOpts{NeedIdle: c.needIdle && p.then == nil, Check: p.check, ThenStep: p.then, CheckStep: p.checkStep})
 		c.nodes += conf.Nodes
+		if !conf.Confirmed && p.then == nil && p.check != nil {
+			// the cone search knows no interleaving moves (and may run out of budget): try the candidate's own trace
+			// under the exact queue discipline (tokens in front of the wanted one must be no-ops)
+			trace := p.s.Trace()
+			if why := x.RealizeExact(trace, c.needIdle, nil); why == "" {
+				if ok, detail := p.check(x.W); ok {
+					conf = &Confirmation{Confirmed: true, Schedule: trace, Detail: detail + " [the abstraction's own trace re-executed under exact queues]", Nodes: conf.Nodes}
+				}
+			}
+		}
 		if !conf.Confirmed {
 			note := fmt.Sprintf("UNCONFIRMED property=%s class=%s scenario=%q reason=%s nodes=%d what=%q abstract-trace=%v", x.RC.ID, p.class, sc.Name, conf.Reason, conf.Nodes, oneLine(p.what), p.s.TraceStrings())
 			fmt.Println(note)
